@@ -194,18 +194,23 @@ fn build(c: &Case) -> Built {
             x
         }
         3 | 4 => {
-            // string tags (details in C17)
-            let s = c.text.replace('\0', "");
+            // string tags (details in C17): stored as given plus a terminating
+            // NUL unless the text already ends in one; reads back the text before
+            // the first NUL
+            let s = c.text.clone();
             let mut body = s.as_bytes().to_vec();
-            body.push(0);
+            if !s.ends_with('\0') {
+                body.push(0);
+            }
+            let s = s[..s.find('\0').unwrap_or(s.len())].to_string();
             if c.ctor == 3 {
-                let t = m::CommandLineTag::new(&s);
+                let t = m::CommandLineTag::new(&c.text);
                 if t.cmdline() != Ok(s.as_str()) {
                     rbv.push(format!("cmdline() = {:?}", t.cmdline()));
                 }
                 Built { name: "CommandLineTag::new", bytes: t.as_bytes().to_vec(), spec: tag(1, &body), mask: vec![], id: mbi_id::<m::CommandLineTag>(), readback: vec![], placement: None }
             } else {
-                let t = m::BootLoaderNameTag::new(&s);
+                let t = m::BootLoaderNameTag::new(&c.text);
                 if t.name() != Ok(s.as_str()) {
                     rbv.push(format!("name() = {:?}", t.name()));
                 }
@@ -378,8 +383,9 @@ fn build(c: &Case) -> Built {
             let (x, y) = (a.u32(), a.u32());
             let (st, en) = if x < y { (x, y) } else if y < x { (y, x) } else { (x, x.wrapping_add(1).max(1)) };
             let (st, en) = if st < en { (st, en) } else { (0, 1) };
-            let s = c.text.replace('\0', "");
-            let t = m::ModuleTag::new(st, en, &s);
+            let full = c.text.clone();
+            let s = full[..full.find('\0').unwrap_or(full.len())].to_string();
+            let t = m::ModuleTag::new(st, en, &full);
             rb!(rbv, "start_address", t.start_address(), st);
             rb!(rbv, "end_address", t.end_address(), en);
             rb!(rbv, "module_size", t.module_size(), en - st);
@@ -389,8 +395,10 @@ fn build(c: &Case) -> Built {
             let mut body = vec![];
             body.extend(st.to_le_bytes());
             body.extend(en.to_le_bytes());
-            body.extend_from_slice(s.as_bytes());
-            body.push(0);
+            body.extend_from_slice(full.as_bytes());
+            if !full.ends_with('\0') {
+                body.push(0);
+            }
             Built { name: "ModuleTag::new", bytes: t.as_bytes().to_vec(), spec: tag(3, &body), mask: vec![], id: mbi_id::<m::ModuleTag>(), readback: vec![], placement: None }
         }
         20 => {
@@ -792,7 +800,18 @@ fn strategy(_: &Ctx) -> BoxedStrategy<Case> {
         proptest::collection::vec(any::<u8>(), 0..=80),
         "[^\\x00]{0,40}",
     )
-        .prop_map(|(ctor, words, content, text)| Case { ctor, words, content: Hex(content), text })
+        .prop_map(|(ctor, words, content, mut text)| {
+            // some texts carry an interior and/or a trailing NUL
+            let sel = words[63];
+            if sel % 5 == 0 {
+                let at = text.char_indices().nth(text.chars().count() / 2).map(|(i, _)| i).unwrap_or(0);
+                text.insert(at, '\0');
+            }
+            if sel % 7 == 0 {
+                text.push('\0');
+            }
+            Case { ctor, words, content: Hex(content), text }
+        })
         .boxed()
 }
 
@@ -816,8 +835,8 @@ pub fn subs() -> Vec<Box<dyn Sub>> {
         name: "constructors",
         rule: "38 public constructors of both crates (all tag kinds incl. the three framebuffer variants, both EFI-map constructors, MemoryArea, TagHeader, generic custom tags; all 11 header-tag kinds). Enumerated: every constructor x content length 0..=40 with byte-marked arguments; generated: random / boundary argument words, contents up to 80 bytes. Oracle: type field == specified number == ID constant; size field == exact unpadded byte count; as_bytes()[..size] == the independent little-endian encoder's image (padding inside argument structs masked); accessors return the arguments; for sized tags as_bytes() works and agrees for the tag placed as local, boxed, array/vec element, and struct field behind a u32 / 12 bytes. Non-trivial = size not a multiple of 8 or all argument words non-zero; distinct by hash(spec image, constructor)",
         profiles: Profiles::Both,
-        quick: 6000,
-        thorough: 200000,
+        quick: 60000,
+        thorough: 1000000,
         strategy,
         enumerate: Some(enumerate),
         enum_exhaustive: false,
